@@ -148,6 +148,8 @@ int main(int argc, char **argv)
       {"1d-plus-harmonic-subtractAppliedForce", 1, false, 0, 1, true, 0, 2, 0, false},
       {"1d-jacobian-T300", 1, false, 0, 1, true, 0, 0, 300.0, false},
       {"1d-periodic", 1, true, 0, 1, true, 0, 0, 0, false},
+      {"1d-periodic-maxForce", 1, true, 0, 1, true, 0.8, 0, 0, false},
+      {"1d-periodic-ramp-1-3-maxForce", 1, true, 1, 3, true, 0.6, 0, 0, false},
       {"2d", 2, false, 0, 2, true, 0, 0, 0, false},
   };
   long nw = 1;
